@@ -138,7 +138,11 @@ func NewModule(name string, code *compiler.Code) *Module {
 	globals := make([]Object, globalsCount)
 	for i := 0; i < globalsCount; i++ {
 		symbol := code.Global(i)
-		globalsIndex[symbol.Name()] = int(i)
+		// Only top-level variables are module attributes: a variable of the same
+		// name declared in a nested block must not shadow it
+		if idx, ok := code.GlobalIndex(symbol.Name()); ok && idx == i {
+			globalsIndex[symbol.Name()] = i
+		}
 		value := symbol.Value()
 		switch value := value.(type) {
 		case int64:
